@@ -138,8 +138,14 @@ ADDED = {
  "C12": " Schedule dimensions: GOMAXPROCS, repetitions, consumer pauses, capacity of the channels between steps (1/2/7/50/5000), backend latency (120/250 ms per lookup), one generation larger than every bounded buffer of the cycle; counters created by increment() itself.",
  "C13": " ChannelMux with 1-4, 8, 49, 50, 51 and 64 pipelines.",
  "C17": " Sessions call every RPC of the Query/Edit/Job services and run whole resource life cycles (private graph with schema, job, index); contention bursts (sessions writing and deleting hundreds of vertices of one label) and structural contention (a vertex deleted while others delete or move its edges).",
- "C20": " Thorough: native fuzzing over (entry point, client string) with the same oracle (FuzzHostile).",
+ "C20": " Existing-sql lookups with the client string among 1200 and 2500 ids. Thorough: native fuzzing over (entry point, client string) with the same oracle (FuzzHostile).",
+ "C04": " After a crash and reopen every graph that does not exist is created again and must be empty (nothing an interrupted DeleteGraph left behind may be inherited).",
+ "C05": " Ten further kinds of Basic credentials that must not validate (empty password, unconfigured user with an empty password, anonymous header, another user's password, ...).",
+ "C08": " Numerals in decimal notation with a sign, a leading/trailing point or an exponent (+1, .5, 5., 1e3) count as numeric text.",
+ "C15": " Argument lists that name a member twice.",
+ "C18": " Streams handed to the kvgraph driver itself that mix valid and invalid elements (invalid ones carrying stored ids).",
 }
+ADDED["C06"] += " Every ordered pair of canonical statements and every condition code x value kind x key kind, systematically."
 for _k, _v in ADDED.items():
     CHECKS[_k]["text"] += _v
 NOT_YET = "check not built yet in this session (planned in DESIGN.md §3); not claimed"
